@@ -58,6 +58,9 @@ type Config struct {
 	FeeSym      string    `json:"fee_symbol"` // "stake" or the run's own fee token
 	FeeMin      string    `json:"fee_min_unit"`
 	FeeScale    uint32    `json:"fee_scale"`
+	// Orphan: the genesis carries a token record without an owner (valid for the module's
+	// genesis validation; "nobody governs it" must then hold for every account)
+	Orphan bool `json:"orphan,omitempty"`
 	Tax         string    `json:"tax"`        // 18-decimal integers
 	MintRatio   string    `json:"mint_ratio"` //
 	BaseFee     string    `json:"base_fee"`   // main units of the fee token
@@ -89,6 +92,11 @@ type params struct {
 }
 
 // tok is the reference model's view of one token.
+const (
+	orphanSym = "orphan"
+	orphanMin = "uorphan"
+)
+
 type tok struct {
 	Symbol, MinUnit, Name string
 	Scale                 uint32
@@ -375,6 +383,7 @@ func (m *Module) Configure(w *engine.World, r *engine.Rand) any {
 		c.PGhost = 0.02 + 0.1*r.Float()
 		c.PGhostMake = 0.01 + 0.04*r.Float()
 	}
+	c.Orphan = r.Bool(0.35)
 	return c
 }
 
@@ -399,6 +408,9 @@ func (m *Module) Setup(w *engine.World) {
 	}
 	for _, d := range m.cfg.IBC {
 		w.NeedDenom(d, new(big.Int).Lsh(big.NewInt(1), 100))
+	}
+	if m.cfg.Orphan {
+		w.NeedDenom(orphanMin, new(big.Int).Lsh(big.NewInt(1), 60))
 	}
 	for _, i := range m.cfg.Unsupported {
 		m.unsupported[w.A(i).Addr.String()] = true
@@ -458,10 +470,14 @@ func (m *Module) Genesis(w *engine.World, n *engine.Node, gs simapp.GenesisState
 		g.Tokens = append(g.Tokens, v1.Token{Symbol: m.cfg.FeeSym, Name: "run fee token", Scale: m.cfg.FeeScale,
 			MinUnit: m.cfg.FeeMin, InitialSupply: 0, MaxSupply: maxU64, Mintable: true, Owner: w.A(0).Addr.String()})
 	}
+	if m.cfg.Orphan {
+		g.Tokens = append(g.Tokens, v1.Token{Symbol: orphanSym, Name: "token without an owner", Scale: 6,
+			MinUnit: orphanMin, InitialSupply: 0, MaxSupply: maxU64, Mintable: false, Owner: ""})
+	}
 	for _, t := range g.Tokens {
 		if m.toks[t.Symbol] == nil {
 			m.addTok(&tok{Symbol: t.Symbol, MinUnit: t.MinUnit, Name: t.Name, Scale: t.Scale, Owner: t.Owner,
-				Mintable: t.Mintable, Max: t.MaxSupply, MaxKnown: true, Genesis: true, NoCap: t.MinUnit == stake})
+				Mintable: t.Mintable, Max: t.MaxSupply, MaxKnown: true, Genesis: true, NoCap: t.MinUnit == stake || t.MinUnit == orphanMin})
 		}
 	}
 	gs[tokentypes.ModuleName] = cdc.MustMarshalJSON(&g)
@@ -988,6 +1004,9 @@ func (m *Module) genOp0(w *engine.World, r *engine.Rand, forced int) *engine.Op 
 }
 
 func (m *Module) isConv(t *tok) bool {
+	if t.MinUnit == orphanMin {
+		return true
+	}
 	for _, p := range m.cfg.Pool {
 		if p.MinUnit == t.MinUnit || p.Symbol == t.Symbol {
 			return p.Conv
@@ -1099,7 +1118,7 @@ func (m *Module) genDeploy(w *engine.World, r *engine.Rand) *engine.Op {
 	a := deployArgs{Authority: gov.Addr.String(), evmFault: m.fault(r, deployFaults)}
 	var cands []*tok
 	for _, t := range m.sortedToks() {
-		if m.isConv(t) && !t.Genesis && (t.Contract == "" || r.Bool(0.02)) {
+		if m.isConv(t) && (!t.Genesis || t.MinUnit == orphanMin) && (t.Contract == "" || r.Bool(0.02)) {
 			cands = append(cands, t)
 		}
 	}
